@@ -418,8 +418,28 @@ func ruleR12(c *Ctx) *RuleResult {
 		}
 		n := 0
 		var bad []string
+		// a loop variable that carries search's "found" result (the descent written as a loop)
+		foundPhi := map[string]bool{}
+		if pf.kind == "found" {
+			for _, g := range gc.GCs {
+				if g.Exit.Op != "goto" {
+					continue
+				}
+				for j, a := range g.Exit.Args {
+					if a.Op == "ext" && a.Leaf == "1" && len(a.Args) == 1 && a.Args[0].Op == "call" && strings.HasSuffix(a.Args[0].Leaf, ".search") {
+						foundPhi["φ:"+g.Exit.Leaf+"."+itoa(j)] = true
+					}
+				}
+			}
+		}
 		for _, g := range gc.GCs {
-			if !isReplacePath(g, pf.kind) {
+			isRep := isReplacePath(g, pf.kind)
+			for _, a := range g.Guards {
+				if a.Op == "φ" && foundPhi[a.String()] {
+					isRep = true
+				}
+			}
+			if !isRep {
 				continue
 			}
 			n++
@@ -781,6 +801,19 @@ func valuesLength(c *Ctx, ct *types.Named, fn *ssa.Function, sizeTerm *Term, dep
 		lt := stripEpochs(st.term(x.Len))
 		if lt.String() == sizeTerm.String() {
 			return Discharged, "make([]T, n) with n = " + trunc(lt.String(), 160) + " = Size()"
+		}
+		// n = len(inner.Values()) / len(inner.Keys()): that length is the inner container's Size() (its own R12f obligation)
+		if lt.Op == "len" && len(lt.Args) == 1 && lt.Args[0].Op == "call" && (strings.HasSuffix(lt.Args[0].Leaf, ").Values") || strings.HasSuffix(lt.Args[0].Leaf, ").Keys")) && len(lt.Args[0].Args) == 2 {
+			if inner := byFuncKey(p, lt.Args[0].Leaf); inner != nil && inner.Signature.Recv() != nil {
+				if it := namedOf(inner.Signature.Recv().Type()); it != nil {
+					if sz := methodsOf(p, it)["Size"]; sz != nil {
+						st2 := &pstate{b: &gcBuilder{p: p, e: c.E(), fn: fn, cutIdx: map[string]int{}, out: &GCNF{Fn: fn}}, env: map[ssa.Value]*Term{}, onPath: map[string]bool{}, inl: true}
+						if t2, ok := st2.inline(sz, []*Term{lt.Args[0].Args[1]}); ok && stripEpochs(t2).String() == sizeTerm.String() {
+							return Discharged, "make([]T, n) with n = len(" + lastIdent(lt.Args[0].Leaf) + "()) of the inner container whose Size() is this container's Size()"
+						}
+					}
+				}
+			}
 		}
 		return Violated, "the result is make([]T, n) with n = " + trunc(lt.String(), 300) + "\nbut Size() = " + trunc(sizeTerm.String(), 300)
 	case *ssa.Call:
@@ -1333,4 +1366,14 @@ func stringStart(gc *GCNF) (string, bool) {
 		res, set = s, true
 	}
 	return res, set
+}
+
+// byFuncKey: the library function with this key.
+func byFuncKey(p *Prog, key string) *ssa.Function {
+	for _, f := range p.Funcs {
+		if f.Parent() == nil && p.FuncKey(f) == key {
+			return f
+		}
+	}
+	return nil
 }
